@@ -209,12 +209,12 @@ func shortPkgOfDir(root, dir string) string {
 // racOldTypes: per package directory and function key, the Go type text of
 // every old(...) expression of the ensures clauses in order (filled from the
 // typed program when available; without it old() is evaluated eagerly).
-var racOldTypes = map[string]map[string][]string{}
+var racOldTypes = map[string]map[string]map[string]string{}
 
 func buildOverlayRAC(root, pkgDir string) (map[string][]byte, error) {
 	oldTypes := racOldTypes[pkgDir]
 	if oldTypes == nil {
-		oldTypes = map[string][]string{}
+		oldTypes = map[string]map[string]string{}
 	}
 	racMode = true
 	defer func() { racMode = false }()
@@ -296,7 +296,6 @@ func buildOverlayRAC(root, pkgDir string) (map[string][]byte, error) {
 			}
 			fmt.Fprintf(&sb, " if !__racPre { __rac_prefail(%q%s) };", c.Key, extra)
 			counter := 0
-			ti := 0
 			var checks strings.Builder
 			for _, r := range c.Ensures {
 				rt, ok := substAll(r.Text, fd, lastErr, res0)
@@ -304,20 +303,16 @@ func buildOverlayRAC(root, pkgDir string) (map[string][]byte, error) {
 					continue
 				}
 				if !racExecutable(rt) {
-					// keep the index into the recorded old() types aligned
-					dummy := 0
-					_, skipped := hoistOld(rt, &dummy)
-					ti += len(skipped)
 					continue
 				}
 				txt, hoists := hoistOld(rt, &counter)
 				for _, h := range hoists {
-					if ti < len(oldTypes[c.Key]) && oldTypes[c.Key][ti] != "" {
-						fmt.Fprintf(&sb, " %s := __snap(func() %s { return %s }); _ = %s;", h[0], oldTypes[c.Key][ti], specToGo(h[1], resultName), h[0])
+					g := specToGo(h[1], resultName)
+					if ty := oldTypes[c.Key][stripSpace(g)]; ty != "" {
+						fmt.Fprintf(&sb, " %s := __snap(func() %s { return %s }); _ = %s;", h[0], ty, g, h[0])
 					} else {
-						fmt.Fprintf(&sb, " %s := __old(%s); _ = %s;", h[0], specToGo(h[1], resultName), h[0])
+						fmt.Fprintf(&sb, " %s := __old(%s); _ = %s;", h[0], g, h[0])
 					}
-					ti++
 				}
 				fmt.Fprintf(&checks, " if !__guard(func() bool { return %s }) { __rac_fail(%q) };", specToGo(txt, resultName), full+"#post:"+r.Label)
 			}
@@ -615,7 +610,9 @@ func runRACWithUnits(root string, corpus []string, stages string, timeout time.D
 	if err != nil {
 		return nil, err
 	}
-	defer os.RemoveAll(scratch)
+	if os.Getenv("HVC_KEEP") == "" {
+		defer os.RemoveAll(scratch)
+	}
 	replace := map[string]string{}
 	n := 0
 	add := func(path string, data []byte) error {
